@@ -11,5 +11,6 @@ export CARGO_TARGET_DIR="$W/target"
 bash "$D/demo.sh" "$W" >/tmp/confirm_$$.log 2>&1; clean_rc=$?
 git apply "$D/patch.diff" || { echo "patch does not apply"; exit 8; }
 cargo test --workspace --no-fail-fast --offline > /tmp/confirm_tests_$$.log 2>&1; grep -E "^test .*FAILED" /tmp/confirm_tests_$$.log | head -5 >&2; tests=$(grep -E "^test result" /tmp/confirm_tests_$$.log | awk '{p+=$4; f+=$6} END {print p" passed "f" failed"}')
+if grep -qE "^test .*vice::tests::stop_resume .*FAILED" /tmp/confirm_tests_$$.log && [ "$(grep -cE '^test .*FAILED' /tmp/confirm_tests_$$.log)" = "1" ]; then echo "known flaky test failed alone: re-running the suite once" >&2; cargo test --workspace --no-fail-fast --offline > /tmp/confirm_tests_$$.log 2>&1; tests=$(grep -E "^test result" /tmp/confirm_tests_$$.log | awk '{p+=$4; f+=$6} END {print p" passed "f" failed"}'); fi
 bash "$D/demo.sh" "$W" >>/tmp/confirm_$$.log 2>&1; mut_rc=$?
 echo "{\"dir\": \"$D\", \"tests_with_change\": \"$tests\", \"demo_rc_clean\": $clean_rc, \"demo_rc_mutated\": $mut_rc}"
